@@ -449,6 +449,7 @@ class World:
         self.gate_attempt: dict = {}  # pid -> gates at the first attempt of each step
         self.build_log: dict = {}  # pid -> [[step, "ok" | exception class | "abort", op index]]
         self.cur_build_step = None
+        self.hr_rng = random.Random(job["hr_seed"]) if job.get("hr_seed") is not None else None
 
     def fired(self, kind):
         self.faults_fired[kind] = self.faults_fired.get(kind, 0) + 1
@@ -466,8 +467,14 @@ class World:
     def _do(self, op: dict):
         k = op["op"]
         if not self.in_reclimit_fault:
-            # same recursion headroom for every op, in histories and in references alike
-            sys.setrecursionlimit(_depth() + HEADROOM)
+            # Recursion headroom of the op.  References always get HEADROOM; a history gets
+            # HEADROOM plus a seeded per-op offset (resolved into the op as "hr"): the stack depth
+            # a public call is entered at is a property of the calling process, like its hash seed.
+            hr = op.get("hr")
+            if hr is None:
+                hr = self.hr_rng.randrange(0, 48) if self.hr_rng is not None else 0
+                op["hr"] = hr
+            sys.setrecursionlimit(_depth() + HEADROOM + hr)
         if k == "build":
             env = self.env(op["p"])
             i = env.next_step
